@@ -7,10 +7,18 @@ PROP = 'C13'
 def run(tier, seed):
     return netcheck.run_net(PROP, tier, seed,
         profiles=[('reify', 150, 1500, 12), ('sat', 60, 600, 25), ('ov', 60, 600, 30)],
-        rule='seeded histories of new_eq / new_conj / new_disj / new_at_most_one / new_exct_one calls (argument lists of '
+        rule='(0) every transition of the state graph of the implementation-shaped model ReifyImpl (the constructors as written: sort, constant folding, repeated / complementary arguments, expression cache, defining clauses, recursive cases and product encoding of the cardinality constructors; spec/ReifyGen.tla prints one test per transition) replayed on the real sat_core: literal returned, number of variables and value of every variable compared with the model after every call; deviating executions are decided by NetworkTrace; '
+             'seeded histories of new_eq / new_conj / new_disj / new_at_most_one / new_exct_one calls (argument lists of '
              'length 0-7 with duplicates, complementary pairs, constants, root-assigned arguments, repeated requests) on the '
              'real sat_core; every emitted clause is captured by the hook and the returned literal is compared with the '
              'formula in every model (enumeration); equality literals between object variables (profile ov: overlapping / nested / disjoint domains, variables derived from another one that share its literals) true exactly when both take the same value; plus the expression cache on networks with thousands of variables (profile cache: every pair and a third of the triples of 22 plain variables for every constructor, seeded requests with negated / repeated arguments): CacheTrace requires that a literal answered for two requests stands for equivalent formulas (truth table over their variables) and that constant / argument answers are equivalent to the request; distinct_nontrivial = distinct executions containing a constructor call',
+        models=[('MC_ReifyImpl', 'MC_ReifyImpl_A1.cfg', 'MC_ReifyImpl_A.cfg',
+                 'implementation-shaped model of new_eq / new_conj / new_disj / new_at_most_one / new_exct_one with new_clause and root-level propagation: ReifiedMeaning, CacheSound, Conservative (a request constrains nothing that existed), NotExcluding over every argument sequence of length <= 3 over 2-3 variables and the constants under every root assignment', None),
+                ('MC_ReifyImpl', 'MC_ReifyImpl_B0.cfg', 'MC_ReifyImpl_B.cfg',
+                 'the same model, two constructor calls in a row with unit clauses and propagation in between (cache hits after the values changed, the literal returned as an argument of the next call)', None),
+                ('MC_ReifyImpl', 'MC_ReifyImpl_C2.cfg', 'MC_ReifyImpl_C.cfg',
+                 'the same model, four to six arguments: the product encoding of at-most-one with its row / column variables, exactly-one on top of it, repeated and complementary arguments among them', None)],
+        reifyimpl=(['ReifyGen_A1.cfg', 'ReifyGen_B0.cfg', 'ReifyGen_C2.cfg'], ['ReifyGen_A.cfg', 'ReifyGen_B.cfg', 'ReifyGen_C.cfg', 'ReifyGen_C2.cfg']),
         cache=(8, 40),
         assumptions=['at most 11 propositional variables per execution (model enumeration)',
                      'for at-most-one / exactly-one every occurrence of a repeated argument counts (the truth table of the RIDDLE operator)'])
